@@ -3,6 +3,43 @@
    A site outside the fragment falls back on the reference definition and is flagged [translated_* = false]. *)
 Require Import Verif.Model.Base Verif.Model.Decision Verif.Model.GoSem Verif.Model.LayoutRef.
 
+(* PrintCtx.Begin  (returns s.buf; None = panic) *)
+Definition pc_begin (s_jsonMode : bool) (s_buf : bytes) : option bytes :=
+  if s_jsonMode
+  then let s_buf := s_buf ++ [zb 123] in
+  Some (s_buf)
+  else Some (s_buf).
+Definition translated_pc_begin := true.
+
+(* PrintCtx.End  (returns s.buf; None = panic) *)
+Definition pc_end (s_jsonMode : bool) (s_buf : bytes) (newline : bool) : option bytes :=
+  let s_buf := if s_jsonMode
+  then let s_buf := s_buf ++ [zb 125] in
+  s_buf
+  else s_buf in
+  if newline
+  then let s_buf := s_buf ++ [zb 10] in
+  Some (s_buf)
+  else Some (s_buf).
+Definition translated_pc_end := true.
+
+(* .checkedfuncname  (None = panic) *)
+Definition checked_funcname (f_replace_all : bytes -> bytes -> bytes -> bytes) (g_flags : Z) (m_codeHostingProvidersMap : list (bytes * bytes)) (name : bytes) : option bytes :=
+  if (negb (Z.land g_flags 256 =? 0))
+  then let name := fold_left (fun name (kv_ : bytes * bytes) => let '(k, v) := kv_ in
+    let name := (f_replace_all name k v) in
+    name) m_codeHostingProvidersMap name in
+  Some (name)
+  else let pos := (str_last_index name [x2f]) in
+  if (0 <=? pos)
+  then match str_suffix name (pos + 1) with
+    | None => None
+    | Some r1_ => let name := r1_ in
+      Some (name)
+    end
+  else Some (name).
+Definition translated_checked_funcname := true.
+
 (* Entry.printImpl  (the statements after the blank-line rule; returns (deliveries, context); None = panic) *)
    (* argument not kept by the model (declared): pc.kvps *)
 Definition print_impl {R E D : Type} (f_begin f_timestamp f_name f_severity f_msg f_first f_pc f_rest : pcs R -> pcs R) (f_attrs : pcs R -> E * pcs R) (f_errdump : pcs R -> E -> pcs R) (f_end : pcs R -> bool -> pcs R) (f_bytes : pcs R -> bytes) (d_printout : Z -> bytes -> D) (m_mLevelColors : list (Z * list Z)) (g_flags : Z) (pc : pcs R) (tr_ : list D) : option (list D * pcs R) :=
